@@ -287,3 +287,36 @@ def results_not_dropped(ctx, s, root, within_prefix="pocket_db::"):
         s.add("S-ERR", rootfn, "results-propagated", root.split("::")[-1], rootfn.sp, PROVED,
               "all %d Result-returning calls in the closure are propagated, matched or returned" % n)
     return n
+
+
+def verdicts_under_writer(ctx, s, root):
+    """S-TXN: every verdict a mutating operation gives about the event (Duplicate, Replaced, Deleted, InvalidDelete, ...) is
+    formed while it holds the write transaction.  A verdict formed before the writer lock is taken speaks about a state no
+    serial order contains: "duplicate" of an event whose first copy is not stored yet (and may yet be refused), "replaced" by
+    a version that is not committed."""
+    fn = ctx.fn(root)
+    an = ctx.E.an(fn)
+    wt = s.calls(fn, pred=lambda n, c, b, i: c.endswith("::write_txn"))
+    short = root.split("::")[-1]
+    if len(wt) != 1:
+        return
+    wb, winfo = wt[0]
+    held = s.ok_edges_of_call(fn, wb) or [wb]
+    sites = {}
+    for (b, i), v in sorted(an.stmt_val.items()):
+        for a in find_values(v, lambda y: y[0] == "agg" and isinstance(y[1], str) and y[1].startswith("adt:pocket_db::error::InnerError:")):
+            if a[1].rsplit(":", 1)[-1] in ("Duplicate", "Replaced", "Deleted", "InvalidDelete"):     # verdicts about stored state
+                sites.setdefault(b, a[1].rsplit(":", 1)[-1])
+    ctx.instances["S-TXN.%s verdict sites" % short] = len(sites)
+    # a verdict site that can be reached from entry without passing the acquisition
+    reach = s.reach(fn, [an.cfg.entry], avoid=held)
+    bad = sorted((b, v) for b, v in sites.items() if b in reach)
+    if bad:
+        b, v = bad[0]
+        s.add("S-TXN", fn, "verdict-under-writer", short, fn.blocks[b]["term"]["sp"], VIOLATION,
+              "the verdict %s can be given before the write transaction is taken: it is about a state that no serial order of the "
+              "concurrent operations contains (the copy it refers to is not stored, and may never be)" % v, b)
+    else:
+        s.add("S-TXN", fn, "verdict-under-writer", short, winfo["sp"], PROVED if sites else UNDECIDED,
+              "all %d verdict sites lie behind the acquisition of the write transaction" % len(sites) if sites else
+              "no verdict sites found: not decided", wb)
